@@ -248,7 +248,7 @@ def ray_oracle(rs, n, ctx, honor):
         nd = 2 if rs.rand() < 0.6 else 3
         homog_eq = rs.rand() < 0.35
         kinds = ["homog"] if homog_eq else ["homog", "layered", "gradient", "lognormal"]
-        cells, d, o = rand_setup(rs, nd, 1, 10 if nd == 2 else 5)
+        cells, d, o = rand_setup(rs, nd, 1, 10 if nd == 2 else 7)
         if homog_eq:
             d = tuple([d[0]] * nd)
         kind = str(rs.choice(kinds))
@@ -958,10 +958,15 @@ def oracle_C18(rs, n, ctx):
                 else:
                     R.violate("C18:homogeneous", f"homogeneous equal-spacing field changes by {cellt:.3f} cell-crossing times", rep)
         else:
-            # the discretisation tolerance: the first-order bound used for the exact solutions (C02)
-            tol = 1.5 * max(d) * smax
+            # the discretisation tolerance: the bound by which either field differs from the exact solution where one is
+            # known - homogeneous 2D with aspect <= 2: twice the C01 bound (exact near field, 2.5% far field);
+            # otherwise the first-order bound used for the exact solutions (C02)
+            if kind == "homog" and nd == 2 and max(d) / min(d) <= 2:
+                tol = 2 * 0.025 * np.maximum(a, b) + 1e-9 * max(d) * smax
+            else:
+                tol = 1.5 * max(d) * smax
             R.maxstat("max_diff_in_cell_times", diff.max() / (max(d) * smax))
-            if diff.max() > tol:
+            if (diff > tol).any():
                 R.violate("C18:tolerance", f"permuted/mirrored field differs by {diff.max() / (max(d) * smax):.2f} cell-crossing times", rep)
     return R
 
